@@ -289,3 +289,30 @@ Proof.
   destruct (rec_run _ _) as [st| |]; cbn [obind]; [|reflexivity..].
   destruct (tp_finish st); reflexivity.
 Qed.
+
+(* ---------- the runs are maximal ---------- *)
+
+(* adjacent runs are separated by a time change *)
+Fixpoint separated (rs : list (list tp_line)) : Prop :=
+  match rs with
+  | r1 :: ((r2 :: _) as t) =>
+      (forall x y, last_opt r1 = Some x -> hd_error r2 = Some y ->
+                   same_time (l_time y) (l_time x) = false) /\ separated t
+  | _ => True
+  end.
+
+Lemma runs_maximal ls : Forall chain (runs ls) /\ separated (runs ls).
+Proof.
+  induction ls as [|r ls IH]; [split; constructor|].
+  rewrite runs_cons. destruct IH as (Hc & Hs).
+  destruct (runs ls) as [|[|r2 run] more]; [split; [repeat constructor | exact I]..|].
+  inversion Hc as [|? ? Hc1 Hc2]; subst.
+  destruct (same_time (l_time r2) (l_time r)) eqn:E.
+  - split.
+    + constructor; [split; assumption | exact Hc2].
+    + destruct more as [|m more]; [exact I|]. destruct Hs as (Hs1 & Hs2). split; [|exact Hs2].
+      intros x y Hx Hy. apply Hs1; [|exact Hy]. exact Hx.
+  - split.
+    + constructor; [exact I | exact Hc].
+    + split; [|exact Hs]. intros x y Hx Hy. inversion Hx; inversion Hy; subst. exact E.
+Qed.
